@@ -7,7 +7,9 @@ CONFIG = dict(
               "(a closed socket leaves the session in the table until the end of the front-end's turn; close handlers see the map as of then) + differential "
               "correspondence with the real objects (pure layer) and the real single-process node (two fronts, two back services with a route rule, two without, "
               "real client connections, handler zoo running scripts of session operations, a device that keeps a front-end busy so that a batch of back-end "
-              "messages meets a closed-but-not-yet-removed session)",
+              "messages meets a closed-but-not-yet-removed session; the same device makes a client connect and send its first message — and optionally hang up — "
+              "BEFORE the front-end has run AddSession: SessionsImpl.OnSessionCreate / ProcessMessage / OnSessionClose only post to the front-end's scheduler, "
+              "modelled as `stepOpenReq` = the front-end's queue [AddSession, message task, (RemoveSession)])",
     level_text="Machine-checked proof in Lean 4, for every value type with an idempotent JSON normalisation, that in the model a push merges a "
                "session's NewData into the connection's map key by key (pushed keys take the normalised value, every other key persists; later pushes win; "
                "over ALL histories the map of every connection is the left fold of the writes addressed to it and has unique keys; a push re-sends EVERY value the "
@@ -20,17 +22,28 @@ CONFIG = dict(
                "a statement / a whole handler run / a client request writes only the map of its own connection (frame); that Kick / a closed socket only QUEUES "
                "the removal: push and query do not look at the closed flag, a push that arrives in that window is merged and returned by a query, the close handlers "
                "are handed the map as of the end of the turn, afterwards the connection is gone, no removal stays pending across operations, an answer to a closed "
-               "socket is lost; that a clone (CloneBackSession) addresses the same connection and carries the reported uid and nothing else (no un-pushed values); end to end over all guarded histories a query returns the fold of the writes; inside the stated guard the reserved "
+               "socket is lost; that a clone (CloneBackSession) addresses the same connection and carries the reported uid and nothing else (no un-pushed values); end to end over all guarded histories a query returns the fold of the writes; "
+               "over ALL histories, without guard and from any state, every forward event names the connection its message came from (front name, connection id) and "
+               "carries the uid held by that connection's map as folded from the events BEFORE it (`every_forward_carries_identity_as_of_then`; `forwarded_envelope_names_the_connection` "
+               "is the one-turn form without the hypotheses of `forward_carries_current`); a first message handed over by the reader goroutine before the front-end has registered "
+               "the connection is a message of exactly the connection AddSession then registers (next id of its front; the pair is the two-operation history open, request), and when "
+               "the client hangs up right behind it the message is still handled, its answer is lost, no closed flag is ever cleared by a message and the connection is gone at the end of the turn; inside the stated guard the reserved "
                "keys persist over all histories. Outside the guard three reachable bad outcomes are stated as theorems (non-string _ID kills forwarding; one "
                "unrepresentable value blocks every later push of that session object / silently re-addresses querying sessions to front \"n\"). The model is tied to the Go code on every run by executing both on generated op sequences (3+ connections x "
                "2 fronts x 2 back services x kept/made back sessions, scalars, nested lists/maps, ints beyond 2^53, unicode keys, unrepresentable values, "
-               "malformed JSON, Kick from front-local and back-end handlers with pushes/queries in the window, requests for the rule-less type under changing node states and member order) and the property predicate (an independent write-log bookkeeping in the driver) is evaluated on the implementation's own observations.",
+               "malformed JSON, Kick from front-local and back-end handlers with pushes/queries in the window, requests for the rule-less type under changing node states and member order, connections whose first message (front-local, forwarded by rule, forwarded by the default route; "
+               "request or notify) is queued before AddSession has run, half of the front-local ones with the hang-up queued behind it, followed by a made session that pushes to / queries the ghost) and the property predicate (an independent write-log bookkeeping in the driver) is evaluated on the implementation's own observations.",
     level_note="Trusted: Lean kernel, harness/driver line protocol and canonicalisation (maps sorted by key, connection ids as per-case ordinals, values as "
                "tokens raw~normalised with the normalised form computed by encoding/json in the harness), the handler zoo. encoding/json is abstracted as an "
                "idempotent `norm` (validated on every generated value). The theorems are about the model; the differential run ties it to the code on sampled "
                "histories. Push / query / forward are instantaneous in the model EXCEPT for the removal of a closed connection, which is queued to the end of the operation "
-               "(the one asynchronous window modelled); a push still in flight while the client's next message is forwarded and request timeouts "
-               "are not modelled. "
+               "(the one asynchronous window modelled); a push still in flight while the client's next message is forwarded is not modelled; "
+               "nor is TIME: the harness never advances the clock, so what the request timeout of app.Request does later (an error answer relayed to a client whose request was "
+               "delivered to a service of another type or whose handler is parked; the callback of a push whose front never answers) is neither modelled nor observed — "
+               "the model's `resp=none` means `no answer by the time the node is quiescent`. "
+               "The reader-goroutine hand-over is modelled for the FIRST message of a connection (`stepOpenReq`: [AddSession, message] and, front-local only, [AddSession, message, "
+               "RemoveSession]); a forwarded first message followed by a hang-up is not generated (the queued removal races the back-end handler's sends: nondeterministic in the "
+               "single-process node), nor are two or more messages queued before AddSession. `handover_is_open_then_request` restates the definition of `stepOpenReq`: its content is the differential tie. "
                "`push_without_waiting_is_delivered_at_once`, `node_state_irrelevant_step`, `reach_iff_member`, `get_prefers_local`, `push_unrepresentable_noop`, "
                "`pushed_then_queried_is_stable` restate definitions of the model: their content is the differential tie. Value fidelity beyond idempotence of `norm` "
                "(ints -> float64, nesting) rests on the differential run only. Not covered: actor `remote` transport between services (bypassed by the bubble-node "
@@ -59,7 +72,11 @@ CONFIG = dict(
                        "unrepresentable_front_value_poisons_query", "query_after_any_history", "clone_carries_identity_only", "reserved_key_write_retargets_session",
                        "kick_keeps_the_session", "kick_queues_removal", "push_query_ignore_closed_flag",
                        "push_in_closing_window_is_merged", "close_handlers_see_end_of_turn_map",
-                       "queued_removals_run_at_turn_end", "no_removal_pending_between_turns", "answer_to_closed_socket_is_lost"],
+                       "queued_removals_run_at_turn_end", "no_removal_pending_between_turns", "answer_to_closed_socket_is_lost",
+                       "forwarded_envelope_names_the_connection", "first_message_before_registration_is_of_the_new_connection",
+                       "handover_is_open_then_request", "step_evs_shape", "stepF_fwd_first", "every_forward_carries_identity_as_of_then",
+                       "sstep_closing_mono", "request_keeps_closed_flags", "request_answer_ok_or_none",
+                       "hangup_after_first_message_removes_the_connection"],
     harness_pkg="./c10",
     mode="diff",
     reset_prefix="reset",
@@ -74,7 +91,11 @@ CONFIG = dict(
          "chat instance by a front-local handler, then 15-45 operations: Kick (1 in 14: a front-local handler kicks its own connection and goes on setting/reading in the same turn; "
          "a back-end handler of a forwarded request or a held session keeps the front-end busy, kicks, sets and pushes without waiting, then at most once waits for a push/query — "
          "the batch meets the closed-but-not-yet-removed session; then the gone connection's next message and its holders), `clone/<h>` statements (CloneBackSession kept under a new handle, 1 in 8 back-end scripts; the clone acts later), sessions addressing a cluster member that is not a front-end, requests for the rule-less type `room` (1 in 5 forwarded "
-         "requests and after half of the view changes; members in two orders), every observation of an op that removed connections ends with what each close handler saw (`closed=`);  front-local and forwarded client requests/notifies whose handler runs a script of "
+         "requests and after half of the view changes; members in two orders), `openreq` (half of the connections opened inside a case: the front-end is held inside a task of its own while the client connects, shakes hands and sends its first "
+         "message — 3 in 5 for the rule-less type `room`, 1 in 5 front-local, 1 in 5 `chat` — so that AddSession and the message task are queued in that order; a third start with "
+         "query;get/_NetId, a third with set chatid;push; half of the front-local ones with `cl=1`: the client hangs up before the front-end is released, then a session made for the ghost "
+         "sets, pushes, queries, and a snapshot; half of the others are followed by the connection's next forwarded request and a snapshot; the harness counts ASSUMPTION-BROKEN.openreq-front-not-busy "
+         "if the connection had an id or the handler had started before the release), every observation of an op that removed connections ends with what each close handler saw (`closed=`);  front-local and forwarded client requests/notifies whose handler runs a script of "
          "1-6 session statements (get/set/bind/id/push/query/json/keep over keys chatid, _ID, ascii/unicode/empty/blank keys and keys that merely look reserved ('_', '_x', '__', '_zone', '_id', '_NetId2', '_serverid', ...); values: scalars, nested lists/maps, "
          "ints beyond 2^53, float32, typed slices, invalid-UTF-8 and HTML strings, NaN/Inf; chatid mostly a live instance, sometimes unknown/non-string/empty; "
          "_ID sometimes not a string), scripts on kept and on directly made back sessions (live, closed, never-existing connections, unknown front), "
@@ -99,5 +120,7 @@ CONFIG = dict(
         "messages one service sends to another are handled in the order they were sent (actor mailbox FIFO): a push not waited for precedes the handler's "
         "answer; what a back-end sends in one turn to a busy front-end is handled as one batch before the tasks the front-end posts to itself meanwhile "
         "(observed on every run in the single-process node; the `remote` transport is not exercised)",
+        "tasks posted to one scheduler (utils/sche) run in the order they were posted: AddSession, the first message, RemoveSession of one connection are posted by its single reader "
+        "goroutine in that order (observed on every `openreq`; the scheduler's queue itself is not modelled)",
     ],
 )
